@@ -148,6 +148,36 @@ def register_t1b(J):
                  statement="C11 'a set creates or replaces exactly one entry', for any object size: found -> the typed store "
                            "goes into that entry; not found -> exactly one entry is appended and the store goes into the LAST "
                            "entry; any other lookup result -> refused, nothing appended, nothing stored."))
+    J.append(Job("newkey", ["C11", "C20"], "harness/newkey.c", sources=["lib/helpers.c"], stubs=["stubs/strdup_log.c"],
+                 contracts=["contracts/setkey.h"], enforce="new_key", replace=["key_file_append", "setGroup", "setKey"],
+                 unwind=8, tier="T1", defines=["-DPART_NEWKEY=1"], extra_cbmc=["--memory-leak-check"], timeout=300, mem_gb=4,
+                 expect=[r"new_key\.postcondition", r"setGroup\.precondition", r"setKey\.precondition"],
+                 model="abstract strdup with a ghost log (which string a copy is a copy of)",
+                 trusted=["key_file_append as far as new_key observes it: the contract proved by job append (success, one "
+                          "more live entry) - allocation failure is not exercised"],
+                 statement="C11 'a set creates exactly one entry', for any object size: new_key refuses a missing object or "
+                           "key before anything is appended; otherwise it appends exactly one entry and names the LAST entry "
+                           "with a private copy of the caller's section name (of the placeholder when the name is missing or "
+                           "empty) and then with the caller's key; a failing section setter ends the call with its code. "
+                           "C20: the private copy is released on every path (memory-leak check)."))
+    J.append(Job("setkeyfn", ["C11", "C20"], "harness/fieldset.c", sources=["lib/keyfile.c"],
+                 stubs=["stubs/strdup_log.c", "stubs/numtext.c"], contracts=["contracts/setkey.h", "stubs/asprintf_shim.h"],
+                 enforce="setKey", unwind=8, tier="T1", defines=["-DPART_FIELDSET=1", "-DFN_SETKEY=1"],
+                 extra_cbmc=["--memory-leak-check"], timeout=300, mem_gb=4, expect=[r"setKey\.postcondition"],
+                 model="abstract strdup with a ghost log",
+                 statement="setKey for any array size and index: a missing object or name is refused without effect; "
+                           "otherwise the entry's key becomes a private copy of the caller's text, the previous key is "
+                           "released exactly once (frees clause, memory-leak check: nothing of the call remains but the "
+                           "new key), nothing else is written."))
+    J.append(Job("setgroupfn", ["C11", "C20"], "harness/fieldset.c", sources=["lib/keyfile.c"],
+                 stubs=["stubs/strdup_log.c", "stubs/numtext.c"], contracts=["contracts/setkey.h", "stubs/asprintf_shim.h"],
+                 enforce="setGroup", replace=["setGroupList"], unwind=8, tier="T1",
+                 defines=["-DPART_FIELDSET=1", "-DFN_SETGROUP=1"], timeout=300, mem_gb=4,
+                 expect=[r"setGroup\.postcondition", r"setGroupList\.precondition"],
+                 statement="setGroup for any array size and index: a missing object or name is refused without effect; "
+                           "otherwise the name is interned through the section list and the entry points at the interned "
+                           "text (it never owns or frees a section name); a failing list reports ECONF_NOMEM; nothing else "
+                           "is written."))
     J.append(Job("initialize", ["C20", "C11"], "harness/setkey.c", sources=["lib/helpers.c"], stubs=["stubs/strdup_abstract.c"],
                  contracts=["contracts/setkey.h"], enforce="initialize", replace=["setGroupList"], unwind=8, tier="T1",
                  defines=["-DPART_INITIALIZE=1"], timeout=900, mem_gb=6, expect=[r"initialize\.postcondition"],
